@@ -7,16 +7,6 @@ import SpatialId.Props.C07
 namespace SpatialId.C08
 open SpatialId
 
-abbrev Off := Int × Int × Int
-def sh (e : Ext) (o : Off) : Ext := shiftE e o.1 o.2.1 o.2.2
-
-/-- the three stencils, in the order in which the Go loops emit them -/
-def stencil6 : List Off := [(-1,0,0), (0,-1,0), (0,0,-1), (1,0,0), (0,1,0), (0,0,1)]
-def stencil8 : List Off := [(-1,0,0), (0,-1,0), (-1,-1,0), (-1,1,0), (1,0,0), (0,1,0), (1,1,0), (1,-1,0)]
-def stencil26 : List Off :=
-  [(0,0,-1)] ++ stencil8.map (fun o => (o.1, o.2.1, -1)) ++ stencil8 ++
-  [(0,0,1)] ++ stencil8.map (fun o => (o.1, o.2.1, 1))
-
 /-- the stencils are what the property says they are: unit steps along one axis; the horizontal ring;
 the full 3×3×3 shell; each offset once -/
 theorem stencil6_spec : ∀ dx ∈ [-1, 0, 1], ∀ dy ∈ [-1, 0, 1], ∀ dv ∈ [-1, 0, (1:Int)],
